@@ -37,6 +37,14 @@ Sections
               public alphabet encodings and custom AlphabetEncoding objects x every largest letter present (1st, 2nd ...
               letter of X: before / at / after the first position where X and Y differ) x 0..3 rows: either refused or
               the table holds exactly the letters that were put in, in the declared encoding
+  code dtypes text / encoded columns handed over as the library's own containers made from CHARACTER CODES of an integer
+              type other than uint8 (CODE_FORMS: EncodedRaggedArray(EncodedArray(np.array(codes, dtype), encoding), lengths);
+              one-letter-per-row columns: a flat EncodedArray; int8 .. uint64 - np.array([65, 67 ..]) and np.where(c, ord('-'),
+              ord('+')) give int64): plain text, Union[table, str] and every alphabet-encoded kind x the construct contracts
+              and x the programs (base table, concatenation operands - joined with ordinary uint8 operands too -, replace,
+              add_fields in that form), all channels.  Plus [k:int, v:str] tables whose text column is one character per row
+              in a flat EncodedArray (CHAR_*), 0..3 rows x code type x selection / concatenation / sort / replace x every
+              channel.  A failure that needs codes wider than one byte ends in ':input-form=wide-integer-codes'
 """
 import atexit
 import copy
@@ -75,6 +83,9 @@ POOL = {
     "cigop": ["MID", "", "S", "=X", "HP", "N"],
     "ciglen": [[1, 2, 3], [4], [], [100, 2 ** 20], [7], [8, 9]],
     "bam": ["ACG", "", "T", "NN", "=A", "GT"],
+    # declared str, one character per row, held in a flat EncodedArray (as np.where(flag, ord("-"), ord("+")) columns are);
+    # only in the schema K_char of the 'code dtypes' section
+    "char": ["+", "x", "7", "-", "A", "z"],
 }
 SORTABLE = {"int", "float", "bool", "optint", "strand"}     # one totally ordered value per row
 INFERABLE = {"int", "float", "bool", "str"}                 # add_fields documents type inference for basic types
@@ -93,6 +104,34 @@ FORM_KINDS = {"ndarray2d": {"li", "lf", "lb", "qual", "ciglen"},
               "series": {"int", "float", "bool", "optint", "str", "union", "sid", "li", "lf", "lb", "strand", "dna",
                          "cigop", "bam"}}
 RECT_FORMS = {"ndarray2d"}
+# character codes of an integer type other than uint8 inside the library's own containers (see 'code dtypes' above)
+CODE_FORMS = {"codes-int64": "int64", "codes-int32": "int32", "codes-uint16": "uint16", "codes-int16": "int16",
+              "codes-uint32": "uint32", "codes-uint64": "uint64", "codes-int8": "int8"}
+CODE_KINDS = {"str", "union", "dna", "cigop", "bam", "strand", "char"}
+for _f in CODE_FORMS:
+    FORM_KINDS[_f] = CODE_KINDS
+# name of an input form in signatures: one class for all code types wider than one byte
+FORM_TAG = {f: ("wide-integer-codes" if d != "int8" else "int8-codes") for f, d in CODE_FORMS.items()}
+
+
+def ftag(form):
+    return FORM_TAG.get(form, form)
+
+
+def code_column(kind, vals, dtype):
+    """a text / encoded column made from the character codes (ord / position in the documented alphabet - not by the text
+    encoder) held in an integer array of the given type"""
+    import numpy as np
+    from bionumpy.encoded_array import EncodedArray, EncodedRaggedArray
+    from bionumpy.encodings import BaseEncoding
+    alph = ALPHABETS.get(kind)
+    code = alph.index if alph else ord
+    enc = types()[kind] if alph else BaseEncoding
+    if kind in ("strand", "char"):
+        return EncodedArray(np.array([code(v) for v in vals], dtype=dtype), enc)
+    flat = EncodedArray(np.array([code(c) for v in vals for c in v], dtype=dtype), enc)
+    return EncodedRaggedArray(flat, np.array([len(v) for v in vals], dtype=int))
+
 FLAT = {k: [x for v in POOL[k] for x in v] for k in RAGGED_NUM}   # element pools of the rectangular rows
 
 INNER = [["a", "int"], ["s", "str"]]
@@ -291,7 +330,7 @@ def types():
         from bionumpy.encodings import (StrandEncoding, DNAEncoding, QualityEncoding, CigarOpEncoding, CigarEncoding,
                                         BamEncoding)
         from bionumpy.bnpdataclass import BNPDataClass
-        _TYPES.update({"str": str, "sid": SequenceID, "int": int, "float": float, "bool": bool,
+        _TYPES.update({"char": str, "str": str, "sid": SequenceID, "int": int, "float": float, "bool": bool,
                        "optint": Optional[int], "li": List[int], "lf": List[float], "lb": List[bool], "ls": List[str],
                        "strand": StrandEncoding, "dna": DNAEncoding, "qual": QualityEncoding, "cigop": CigarOpEncoding,
                        "ciglen": CigarEncoding, "bam": BamEncoding, "union": Union[BNPDataClass, str]})
@@ -356,6 +395,9 @@ def to_input(field, vals, form):
     k = field.kind
     if field.sub is not None:
         return build(field.sub, copy.deepcopy(list(vals)), form)
+    if k == "char":
+        # always the flat container; the codes are uint8 unless the form names another type
+        return code_column(k, list(vals), "uint8" if _CANONICAL[0] else CODE_FORMS.get(form, "uint8"))
     if form in FORM_KINDS:
         # the further input forms (see FORM_KINDS); a column whose kind does not have the form is given as 'auto'
         vals = copy.deepcopy(list(vals))
@@ -364,6 +406,8 @@ def to_input(field, vals, form):
         elif form == "ndarray2d":
             dt = {"li": np.int64, "lf": np.float64, "lb": bool, "ciglen": np.int64, "qual": np.uint8}[k]
             return np.array(vals, dtype=dt).reshape(len(vals), len(vals[0]) if vals else 2)
+        elif form in CODE_FORMS:
+            return code_column(k, vals, CODE_FORMS[form])            # (typed also without rows / without letters)
         elif len(vals) == 0 or (k in RAGGED_NUM and not any(len(v) for v in vals)):
             form = "native"                                         # element-free tuples / object Series carry no type
         elif form == "tuple":
@@ -529,7 +573,7 @@ def entry_value(v, field):
     if field.sub is not None:
         return [entry_value(getattr(v, f.name), f) for f in field.sub.fields]
     if isinstance(v, EncodedArray):
-        if field.kind == "strand":
+        if field.kind in ("strand", "char"):
             codes = np.ravel(v.raw()).tolist()      # a scalar or a one-element array
             if len(codes) != 1:
                 raise Obs("container", "entry field %s holds %d letters" % (field.name, len(codes)))
@@ -653,7 +697,7 @@ class FormCol:
 
     def __init__(self, col, form, suffix=None):
         self._col, self._form, self._memo = col, form, _FORM_MEMO
-        self._suffix = suffix or ":input-form=" + form
+        self._suffix = suffix or ":input-form=" + ftag(form)
 
     def __getattr__(self, name):
         return getattr(self._col, name)
@@ -929,16 +973,16 @@ def op_qual(op, node_n, operand_n=None):
     if op[0] == "concat":
         if op[1] == "self":
             return ":self"
-        formq = ":operand-%s%s" % (op[3], ":other-width" if op[5] == "other" else "") if len(op) > 3 else ""
+        formq = ":operand-%s%s" % (ftag(op[3]), ":other-width" if op[5] == "other" else "") if len(op) > 3 else ""
         if node_n == 0:
             return ":empty-self" + formq
         if op[1] == "emptyslice" or op[2] == 0:
             return ":empty-operand"
         return formq
     if op[0] in ("replace", "assign"):
-        return ":" + str(op[2])
+        return ":" + ftag(str(op[2]))
     if op[0] == "add":
-        return (":typed" if op[3] else ":inferred") + (":" + op[4] if len(op) > 4 else "")
+        return (":typed" if op[3] else ":inferred") + (":" + ftag(op[4]) if len(op) > 4 else "")
     if op[0] == "rt_tuples":
         return ":" + op[1]
     return ""
@@ -1242,7 +1286,7 @@ def terminal(ctx, node, name, t=None):
         if ok:
             for k, fld, want in expect:
                 got = cols[k]
-                if fld.kind == "strand" and isinstance(got, str):
+                if fld.kind in ("strand", "char") and isinstance(got, str):
                     got = list(got)
                 if n == 0 and len(got) == 0:
                     continue
@@ -1300,6 +1344,10 @@ def explore(ctx, node, depth, levels, seen):
                 all_terminals(ctx, child)
             continue
         seen.add(key)
+        if op[0].startswith("rt_") and any(f.kind == "char" for f in child.sch.fields):
+            # a table rebuilt from rows holds its text in the ragged container: observed, not joined with flat columns
+            explore(ctx, child, len(levels), levels, seen)
+            continue
         explore(ctx, child, depth + 1, levels, seen)
 
 
@@ -1385,9 +1433,9 @@ def check_container(obj, field):
         if obj.dtype.kind not in want:
             return "dtype:%s column has dtype %s" % (k, obj.dtype)
         return None
-    if k == "strand":
+    if k in ("strand", "char"):
         if not isinstance(obj, EncodedArray) or obj.ndim != 1:
-            return "strand column is a %s" % type(obj).__name__
+            return "%s column is a %s" % (k, type(obj).__name__)
     elif not isinstance(obj, EncodedRaggedArray):
         return "%s column is a %s" % (k, type(obj).__name__)
     if k in ALPHABETS:
@@ -1419,7 +1467,7 @@ def construct_case(col, case):
     fsuffix = ""
     if form in FORM_KINDS:
         # a typed matrix without elements (0 rows or 0 columns) is its own class
-        fsuffix = ":" + form
+        fsuffix = ":" + ftag(form)
         def element_free(f, vals):
             if f.sub is not None:
                 return any(element_free(g, [v[i] for v in vals]) for i, g in enumerate(f.sub.fields))
@@ -1459,7 +1507,7 @@ def construct_case(col, case):
         return                  # one class: the column is not converted; what follows from that is not a new class
     ok, got = run_guarded(ctx, "construct:result" + zero + fsuffix, case, lambda: extract(t, sch))
     if ok:
-        compare(ctx, "construct", zero + (":" + form if form in ("native", "alt") or fsuffix else ""), sch, got, rows, case)
+        compare(ctx, "construct", zero + (":" + ftag(form) if form in ("native", "alt") or fsuffix else ""), sch, got, rows, case)
     if form != "empty()":
         for c, s in zip(cols, snapshot):
             if s is not None:
@@ -1810,6 +1858,18 @@ def run(tier="quick", seed=0):
              "ndarray2d: List[int] n=0..3 w in {1,2} rep x mini, List[float]/List[bool] n in {1,3} w=2 rep x mini and n in {0,2} w=1 rep, "
              "Bed12 GfaPath wide nested-in-nested n in {1,3} rep, GfaPath n=3 w=1 rep x mini; tuple: List kinds n=1..3 rep, "
              "List[int] n=3 rep x mini; Series: every kind with the form and the wide table n in {1,3} rep, int str List[int] n=3 rep x mini"),
+        "code dtypes (text / Union / DNA / cigar-op / BAM-sequence / strand columns, and a str column of one character per row "
+        "in a flat EncodedArray [K_char], handed over as EncodedRaggedArray / EncodedArray made from integer character codes of "
+        "type " + ", ".join(CODE_FORMS.values()) + "; uint8 is the ordinary form)":
+            "construct: the kind schemas and K_char x every code type, every other schema with such a column x " +
+            ("int64 int32 uint16" if quick else "every code type") + ", n=0..3; programs with the base table and form operands "
+            "(concatenate with tables of that code type and with ordinary uint8 ones, replace, add_fields): " +
+            ("K_char uint8 n in {0,3} rep; int64: str DNA strand K_char n in {0,3} rep, Union SequenceEntry VCFEntry n=3 mini; "
+             "int32: str K_char n=2 rep; uint16: str Union K_char n=1 mini" if quick else
+             "K_char uint8 n=0..3 rep x mini; int64: str Union strand K_char n=0..3 rep x mini, DNA cigar-op BAM-sequence wide "
+             "SequenceEntry SequenceEntryWithQuality VCFEntry SAMEntry BamEntry Bed6 GTFEntry n in {1,3} rep; every other code type: "
+             "the 7 kinds n=3 rep, str K_char n in {0,1} rep; int32 uint16: str K_char n=2 rep x mini") +
+            "; tables rebuilt from rows of K_char (ragged text) are observed, not operated on further",
         "tables with a context (set_context, as attached by the file readers)": "K_str and Interval, n in {0,1,3}: rep (depth 1)",
         "histories": "in every program above and below: after each operation every earlier table of the program is read back; "
                      "column assignment (container of the declared type; on an unread table and on one converted to rows before) "
@@ -1856,16 +1916,27 @@ def run(tier="quick", seed=0):
                     for op in ("construct", "replace", "add"):
                         c = {"section": "unequal", "schema": sch.desc, "n": n, "short": short, "delta": delta, "op": op}
                         col.guarded(lambda: unequal_case(col, c), "unequal:crash", c)
-    # 2b construction from the further input forms (every schema that has a column of a kind with that form)
+    # 2b construction from the further input forms (every schema that has a column of a kind with that form; code types:
+    #    the kind schemas with every code type, the other schemas with the code types of the tier)
+    code_forms = ["codes-int64", "codes-int32", "codes-uint16"] if quick else list(CODE_FORMS)
     for sch in schemas + datatype_schemas():
         for form in FORM_KINDS:
             if not any(has_form(f, form) for f in sch.fields):
                 continue
-            for n in range(4) if form in RECT_FORMS else range(1, 4):
+            if form in CODE_FORMS and form not in code_forms and not sch.name.startswith("K_"):
+                continue
+            for n in range(4) if form in RECT_FORMS or form in CODE_FORMS else range(1, 4):
                 for w in (0, 1, 2) if form in RECT_FORMS else (None,):
                     c = {"section": "construct", "schema": sch.desc, "rows": make_rows(sch, n, width=w), "form": form,
                          "keywords": False, "width": w}
                     col.guarded(lambda: construct_case(col, c), "construct:crash", c)
+    # 2b' one character per row in a flat EncodedArray, every code type
+    char_sch = Sch("K_char", [["k", "int"], ["v", "char"]], None, True)
+    for form in ["native"] + list(CODE_FORMS):
+        for n in range(4):
+            c = {"section": "construct", "schema": char_sch.desc, "rows": make_rows(char_sch, n), "form": form,
+                 "keywords": False, "width": None}
+            col.guarded(lambda: construct_case(col, c), "construct:crash", c)
     # 2c columns that are already encoded in another alphabet
     outcome = run_reencode(col, quick)
     col.bounds["re-encode"] += "; accepted %s, refused %s" % (outcome.get("built"), outcome.get("refused"))
@@ -1911,7 +1982,8 @@ def run(tier="quick", seed=0):
             if sch.name in ("K_int", "K_str", "K_sid", "K_li", "K_strand", "K_nested"):
                 section(sch.name + " d3", lambda: run_programs(col, sch, [3], ("rep", "mini", "rep")))
     # programs on tables handed over in the further input forms; with the operations that take such tables / columns
-    by_name = {sch.name: sch for sch in kind_schemas() + other_schemas() + datatype_schemas()}
+    by_name = {sch.name: sch for sch in kind_schemas() + other_schemas() + datatype_schemas() + [char_sch]}
+    section("K_char uint8", lambda: run_programs(col, char_sch, [3, 0] if quick else [0, 1, 2, 3], ("rep",) if quick else ("rep", "mini")))
     if quick:
         fplan = [("ndarray2d", ["K_li"], [3, 1], [2], ("rep",)),
                  ("ndarray2d", ["K_lf", "K_lb"], [3], [2], ("rep",)),
@@ -1930,6 +2002,23 @@ def run(tier="quick", seed=0):
                  ("series", ["K_" + k for k in ("int", "float", "bool", "optint", "str", "union", "sid", "li", "lf", "lb",
                                                 "strand", "dna", "cigop", "bam", "nested")] + ["Wide"], [1, 3], [None], ("rep",)),
                  ("series", ["K_int", "K_str", "K_li"], [3], [None], ("rep", "mini"))]
+    # ... made from character codes of another integer type than uint8
+    code_kinds = ["K_str", "K_union", "K_dna", "K_strand", "K_cigop", "K_bam", "K_char"]
+    if quick:
+        fplan += [("codes-int64", ["K_str", "K_dna", "K_strand", "K_char"], [3, 0], [None], ("rep",)),
+                  ("codes-int64", ["K_union", "SequenceEntry", "VCFEntry"], [3], [None], ("mini",)),
+                  ("codes-int32", ["K_str", "K_char"], [2], [None], ("rep",)),
+                  ("codes-uint16", ["K_str", "K_union", "K_char"], [1], [None], ("mini",))]
+    else:
+        fplan += [("codes-int64", ["K_str", "K_union", "K_strand", "K_char"], [0, 1, 2, 3], [None], ("rep", "mini")),
+                  ("codes-int64", ["K_dna", "K_cigop", "K_bam"], [1, 3], [None], ("rep",)),
+                  ("codes-int64", ["Wide", "SequenceEntry", "SequenceEntryWithQuality", "VCFEntry", "SAMEntry", "BamEntry",
+                                   "Bed6", "GTFEntry"], [1, 3], [None], ("rep",))]
+        for f in CODE_FORMS:
+            if f != "codes-int64":
+                fplan += [(f, code_kinds, [3], [None], ("rep",)), (f, ["K_str", "K_char"], [0, 1], [None], ("rep",))]
+        fplan += [("codes-int32", ["K_str", "K_char"], [2], [None], ("rep", "mini")),
+                  ("codes-uint16", ["K_str", "K_char"], [2], [None], ("rep", "mini"))]
     for form, names, ns, widths, levels in fplan:
         for nm in names:
             for w in widths:
